@@ -60,3 +60,22 @@ Theorem C01_row_mapping : forall rowid cis r i,
   end.
 Proof. exact to_row_nth. Qed.
 Print Assumptions C01_row_mapping.
+
+(* ---------- end to end (Model/E2E.v): the schema is the one the file itself defines ---------- *)
+From SQ Require Import Model.Tokenizer Model.Schema Model.E2E Proofs.E2EP.
+
+(* Select from the bytes of the file alone is Model/High.v's Select on the schema record computed from
+   sqlite_master's text (tokenizer -> translated parser -> newSchema): C01_select / C01_select_all /
+   C01_row_mapping, stated for every schema record, therefore speak about it *)
+Theorem C01_e2e_select : forall pg op n S cb table columns (s : S) ms st fl,
+  master pg op n = (fl, ms) -> (forall e, fl <> Fail e) -> db_schema ms table = Ok st ->
+  e_select pg op n S cb table columns s = h_select pg op n S cb (schema_of st) table columns s.
+Proof. exact e_select_is_h_select. Qed.
+Print Assumptions C01_e2e_select.
+
+(* "A definition sqlittle cannot interpret produces an error, never rows" *)
+Theorem C01_e2e_uninterpretable : forall pg op n S cb table columns (s : S) ms fl e,
+  master pg op n = (fl, ms) -> db_schema ms table = Err e ->
+  exists e', e_select pg op n S cb table columns s = (Fail e', s).
+Proof. exact e_select_uninterpretable. Qed.
+Print Assumptions C01_e2e_uninterpretable.
